@@ -3,7 +3,7 @@
    The md5-derived virtual nodes are the function [points] (host -> rounds -> ring points); it is universally quantified.
    NoCollision points U: the points of two different hosts of the universe U are disjoint. *)
 From Coq Require Import List NArith ZArith.
-From TarsV Require Import Base.Hex Gen.Consts Select.Selectors Select.Hist Select.WeightProofs Select.SelProofs Select.RingProofs.
+From TarsV Require Import Base.Hex Gen.Consts Select.Selectors Select.Hist Select.WeightProofs Select.SelProofs Select.RingProofs Select.Manager Select.ManagerProofs.
 Import ListNotations.
 
 (* deterministic: a hash-routed selection does not change the selector and does not depend on any random draw *)
@@ -71,3 +71,28 @@ Theorem C14_collision_dependence :
   ring_lookup (hring (state_after coll_points ConHash false [Refresh [ep_a] 0 0])) 0 = Some ep_a.
 Proof. exact RingProofs.collision_dependence. Qed.
 Print Assumptions C14_collision_dependence.
+
+(* through the endpoint manager (Select/Manager.v: refreshEndpoints/updateActiveEp; [order] = its canonical order of a list,
+   arbitrary here): the routing state - installed list and weight mode - is recomputed from the registry answer alone, so it
+   is that of the last non-empty answer whatever the registry said before ... *)
+Theorem C14_manager_weight_mode : forall order answers,
+  m_weighted (mgr_state order answers) = weight_mode (last_answer answers []).
+Proof. exact ManagerProofs.mgr_weight_mode. Qed.
+Print Assumptions C14_manager_weight_mode.
+
+(* ... and two clients whose registry histories end in the same answer route every (selector kind, code) alike *)
+Theorem C14_manager_history_independent : forall order points as1 as2 k code,
+  last_answer as1 [] = last_answer as2 [] ->
+  mgr_route points (mgr_state order as1) k code = mgr_route points (mgr_state order as2) k code.
+Proof. exact ManagerProofs.mgr_route_history_independent. Qed.
+Print Assumptions C14_manager_history_independent.
+
+(* consistent hashing, NoCollision: it is enough that the final answers hold the same endpoints (any order) in the same mode *)
+Theorem C14_manager_conhash_same_set : forall order points (U : list N -> Prop), NoCollision points U ->
+  (forall l e, In e (order l) <-> In e l) ->
+  forall as1 as2 code, let a1 := last_answer as1 [] in let a2 := last_answer as2 [] in
+  (forall e, In e a1 -> U (host e)) -> (forall e, In e a2 -> U (host e)) ->
+  (forall e, In e (refresh_eps (order a1)) <-> In e (refresh_eps (order a2))) -> weight_mode a1 = weight_mode a2 ->
+  mgr_route points (mgr_state order as1) ConHash code = mgr_route points (mgr_state order as2) ConHash code.
+Proof. exact ManagerProofs.mgr_conhash_same_set. Qed.
+Print Assumptions C14_manager_conhash_same_set.
